@@ -301,3 +301,50 @@ Definition wit_cfg (m : mode) : cfg := Build_cfg m 1 1 wit_main wit_tasks.
    main spawns 2 (queue full again); worker settles 1: lock+publish, then must send continuation 0 *)
 Definition wit_sched : list action :=
   [AMain; AWorker 0; AWorker 0; AWorker 0; AWorker 0; AWorker 0; AMain; AWorker 0].
+
+(* ---- the "batched fallback that skips one" variant of enqueueContinuations (a refuted design, NOT the tree) ----
+     continuations := p.continuations; p.continuations = nil
+     for i, cont := range continuations { select { case queue <- cont: default: go sendAll(continuations[i+1:]); return } }
+   i.e. non-blocking sends, and when the queue is full "the remaining" continuations are handed to the fallback -
+   starting AFTER the one whose send just failed.  Same statement granularity as step_worker: one continuation per
+   step while there is room; the step that finds the queue full moves the tail to s_ovf and forgets the head.
+   Every other step is the Fixed protocol's. *)
+Definition step_worker_skip (c : cfg) (s : state) (w : nat) : option state :=
+  match nth_error (s_ws s) w with
+  | Some (WSettle t) =>
+      match conts_of s t with
+      | k :: rest =>
+          if queue_full c s
+          then Some (set_ovf (set_conts s (upd t [] (s_conts s))) (s_ovf s ++ rest))        (* k is dropped *)
+          else Some (set_queue (set_conts s (upd t rest (s_conts s))) (s_queue s ++ [k]))
+      | [] => step_worker c s w
+      end
+  | _ => step_worker c s w
+  end.
+
+Definition step_fn_skip (c : cfg) (s : state) (a : action) : option state :=
+  match a with
+  | AWorker w => step_worker_skip c s w
+  | _ => step_fn c s a
+  end.
+
+Fixpoint run_skip (c : cfg) (sched : list action) (s : state) : option state :=
+  match sched with
+  | [] => Some s
+  | a :: r => match step_fn_skip c s a with Some s1 => run_skip c r s1 | None => None end
+  end.
+
+Definition enabled_skip (c : cfg) (s : state) : list action :=
+  filter (fun a => is_some (step_fn_skip c s a)) (all_actions s).
+
+(* witness program for the variant (N=1, Q=1): main starts mid(0) and awaits it; mid starts leaf 1 and filler 2,
+   then awaits 1 and 2.  Leaf 1 settles while filler 2 occupies the only queue slot. *)
+Definition skip_main : body := [ISpawn 0; IAwait 0].
+Definition skip_tasks : list body := [[ISpawn 1; ISpawn 2; IAwait 1; IAwait 2]; []; []].
+Definition skip_cfg : cfg := Build_cfg Fixed 1 1 skip_main skip_tasks.
+(* main starts 0; worker: take 0, start 1 (queued), start 2 (fallback goroutine), await 1: lock, park; take 1;
+   the fallback goroutine's send of 2 completes (queue full again); worker: settle 1 (lock+publish), send
+   continuation 0 -> queue full -> dropped; unlock; take 2; settle 2; unlock *)
+Definition skip_sched : list action :=
+  [AMain; AWorker 0; AWorker 0; AWorker 0; AWorker 0; AWorker 0; AWorker 0; AFlush 0;
+   AWorker 0; AWorker 0; AWorker 0; AWorker 0; AWorker 0; AWorker 0].
